@@ -94,6 +94,7 @@ class C09(Case):
     def run(self, mk):
         sp = self.spec
         items = self._items(mk)
+        S.SUBQ["pool"] = items
         data = dict(items=items, made=[])
         out = {}
         for amb in AMBIENTS:
@@ -130,6 +131,7 @@ class C09(Case):
         sp = self.spec
         items = data["items"]
         cond = sp["cond"]
+        S.SUBQ["pool"] = items
         sat = [S.holds(alg, cond, {"x": it}) for it in items]
         # the predicate is certainly reached only when it is the first thing evaluated (evaluation is lazy: a conjunct that
         # fails for every object legitimately keeps later predicates from being called at all)
@@ -176,7 +178,52 @@ class C09(Case):
         return obs
 
 
+class C09Registry(Case):
+    """Scenario: a rule whose second variable is declared by keyword constraints WITHOUT a domain (w = RReg(v=x.a): it ranges over
+    the registry), evaluated under every ambient mode: one real instance per pair (x, w) with w.v == x.a."""
+    prop = "C09"
+
+    def run(self, mk):
+        from props.c04 import RItem, RReg
+        items = [RItem(a=mk.int("x_%d.a" % i)) for i in range(2)]
+        regs = [RReg(v=mk.int("w_%d.v" % j)) for j in range(2)]
+        data = dict(items=items, regs=regs)
+        out = {}
+        for amb in AMBIENTS:
+            try:
+                with rule_mode():
+                    x = let(RItem, domain=items)
+                    w = RReg(v=x.a)
+                    q = infer(entity(Made(src=x, val=w)))
+                with ambient(amb, q):
+                    rs = list(q.evaluate())
+                out[amb] = ["made", [[type(o) is Made, next((i for i, it in enumerate(items) if it is getattr(o, "src", None)), -1),
+                                      next((j for j, r in enumerate(regs) if r is getattr(o, "val", None)), -1)] for o in rs]]
+            except Exception as e:
+                out[amb] = ["exc", type(e).__name__, str(e)[:160]]
+        return data, out
+
+    def obligations(self, alg, data, outcome):
+        obs = []
+        for amb in AMBIENTS:
+            res = outcome[amb]
+            p = "ambient=%s:" % amb
+            if res[0] == "exc":
+                obs.append((p + "no_exception:%s:%s" % (res[1], res[2][:60]), alg.const(False)))
+                continue
+            rows = res[1]
+            obs.append((p + "real_instances_built_from_domain_and_registry_objects", alg.const(all(r[0] and r[1] >= 0 and r[2] >= 0 for r in rows))))
+            pairs = [(r[1], r[2]) for r in rows]
+            obs.append((p + "one_instance_per_pair", alg.const(len(pairs) == len(set(pairs)))))
+            for i, xo in enumerate(data["items"]):
+                for j, wo in enumerate(data["regs"]):
+                    obs.append((p + "pair_x%d_w%d" % (i, j), alg.iff(alg.const((i, j) in pairs), alg.cmp("eq", wo.v, xo.a))))
+        return obs
+
+
 def make_case(spec):
+    if spec.get("scenario") == "registry_keyword_variable":
+        return C09Registry(spec)
     return C09(spec)
 
 
@@ -187,6 +234,9 @@ def shapes(tier, seed):
               ["and", ["pf", "x"], ["cmp", "lt", ["a", "x", "b"], ["a", "x", "c"]]],
               ["or", ["PC", "x"], ["pf", "x"]], ["and", ["PC", "x"], ["pf", "x"]]]
     leaves += [["pf2", "x", 1], ["PC2", "x", 0], ["cmp", "le", ["a", "x", "b"], ["a", "x", "c"]]]
+    # a predicate whose body opens (and leaves) a symbolic block of its own while the outer query is being evaluated
+    leaves += [["pq", "x"], ["and", ["pq", "x"], ["PC", "x"]], ["or", ["pq", "x"], ["PC", "x"]], ["and", ["PC", "x"], ["pq", "x"]]]
+    out.append(dict(scenario="registry_keyword_variable"))
     for q in ("an_setof", "the_setof"):
         for c in leaves[:6]:
             out.append(dict(quant=q, cond=c))
